@@ -64,6 +64,7 @@ enum {
   MYTH_VP_STEAL_HIT, MYTH_VP_MAIN_MIGRATE_BACK,
   MYTH_VP_BLOCK, MYTH_VP_WAKE, MYTH_VP_CTX_CALLBACK,
   MYTH_VP_SWITCH_TO,
+  MYTH_VS_ATOMIC,
   MYTH_VS_N_SITES
 };
 
@@ -87,6 +88,17 @@ extern unsigned long long (*myth_verif_dr_clock)(void);
 #ifdef __cplusplus
 }
 #endif
+
+/* every atomic read-modify-write is a schedule point by itself, also where no explicit
+   MYTH_VERIF_POINT precedes it (a macro is not expanded inside its own replacement,
+   so the inner name is the compiler builtin) */
+#define __sync_bool_compare_and_swap(p, o, n) (myth_verif_point(MYTH_VS_ATOMIC), __sync_bool_compare_and_swap(p, o, n))
+#define __sync_val_compare_and_swap(p, o, n)  (myth_verif_point(MYTH_VS_ATOMIC), __sync_val_compare_and_swap(p, o, n))
+#define __sync_fetch_and_add(p, v)            (myth_verif_point(MYTH_VS_ATOMIC), __sync_fetch_and_add(p, v))
+#define __sync_fetch_and_sub(p, v)            (myth_verif_point(MYTH_VS_ATOMIC), __sync_fetch_and_sub(p, v))
+#define __sync_add_and_fetch(p, v)            (myth_verif_point(MYTH_VS_ATOMIC), __sync_add_and_fetch(p, v))
+#define __sync_sub_and_fetch(p, v)            (myth_verif_point(MYTH_VS_ATOMIC), __sync_sub_and_fetch(p, v))
+#define __sync_lock_test_and_set(p, v)        (myth_verif_point(MYTH_VS_ATOMIC), __sync_lock_test_and_set(p, v))
 
 #define MYTH_VERIF_POINT(site)       myth_verif_point(site)
 #define MYTH_VERIF_SPIN(site)        myth_verif_spin(site)
